@@ -43,6 +43,7 @@ for d in targets:
         if f.startswith("demo"): shutil.copy(os.path.join(d, f), os.path.join(out, f))
     caught = [p for p, v in detected.items() if v["exit"] == 1]
     INITIALLY_MISSED = {'C01a/m2': 'C01 had only lower-case tag names: every tag of the HTML/SVG tables was added', 'C02a/m2': 'no spread-of-call child on a component: C03 shapes spreadCall/spreadThenText added', 'C12a/m1': 'C12 did not include the reassignment-capture family: C06/C10 workloads added to C12', 'C04b/m1': 'no directive whose own name starts with v: spellings v-visible, vValidate, v-vv-dir, v-v added', 'C05b/m2': 'v-models was always the last attribute: neighbours after the model (plain, spread, explicit listener) added', 'C06b/m2': 'no user binding named like the captured copy (_x): collider added', 'C09b/m2': 'no sibling statements inside the same statement list as the JSX: inner-sibling contexts added to C06/C10 (and through them C09)', 'C10b/m1': 'no assignment with a (parenthesised) JSX right-hand side to a same-named variable in another scope: distractors added', 'C10b/m2': 'no distractor inside the statement\'s own statement list: *Inner statement families added', 'C11c/m2': 'no optional-chain / template / binary / new / array child shapes: added to C03 and C11', 'C16c/m1': 'local scopes were function declarations only: arrow, function expression, IIFE, object and class method scopes added', 'C17c/m2': 'one component per module: same-named aliases in two scopes with two components added', 'C18c/m1': 'Function-typed props were exactly Function: unions containing a function type added', 'C19c/m1': 'extends chains were interfaces only: extends of object-type / intersection aliases added', 'C19c/m2': 'one component per module: modules with 2-3 components sharing a base emits type added', 'C20c/m1': 'spread argument lists always carried two elements: setup-only and head-spread shapes added', 'C20c/m2': 'object literals had at most one spread: literals with two or three spreads added'}
+    INITIALLY_MISSED.update({'C01d/m1': 'predicted from the description (strengthened before the trial): string attribute values held no TAB / lone CR / edge blanks / NBSP / backslash / entity: ATTR_KINDS strTab, strCR, strEdges, strNbsp, strBackslash, strEntity added', 'C01d/m2': 'predicted (strengthened before the trial): under mergeProps:false no attribute name was repeated: repeated plain/class/style/listener names and repeats after a spread added', 'C01d/m3': 'predicted (strengthened before the trial): a component name was either bound or unbound for the whole module: modules where the same name is bound in one scope and unbound in another added', 'C02d/m3': 'predicted (strengthened before the trial): custom-element patterns only matched lower-case tags: tags X-Panel/_widget with patterns ^X- and ^_w added', 'C03d/m1': 'predicted (strengthened before the trial): member-expression hosts always ended in a capitalised name: ns.div / ns.span hosts added', 'C03d/m2': 'a single call child was never inside a loop body executed several times: forOf/while/for loop contexts whose slots are invoked after the loop added (this also exposed a genuine defect, fixed: brace-less loop bodies)', 'C03d/m3': 'predicted (strengthened before the trial): the only child was never an element carrying a runtime directive: onlyChildWithDirective shapes added', 'C04d/m2': 'predicted (strengthened before the trial): one directive name per element: the same normalised name used twice on one element added', 'C05d/m1': 'predicted (strengthened before the trial): one v-model host per module: modules with several hosts needing different model directives added', 'C05d/m3': 'predicted (strengthened before the trial): constant type was always a plain string attribute: type={"checkbox"} / type={\'radio\'} added', 'C06d/m2': 'no import declaration after the statement that needs a temporary: lateImport sibling added to C06 (and C10)', 'C07d/m1': 'string attribute texts never ended in a backslash or held an invalid escape: added to the fuzz attribute strings and ODD_FORMS', 'C07d/m2': 'no JSX inside the default of a typed setup parameter under resolveType: ODD_TSX forms added', 'C07d/m3': 'pragma names were always well-formed: malformed names (trailing dot, double dot, digit segment) added; the census now also validates member-callee names', 'C08d/m1': 'no U+2028/U+2029 in texts, attribute strings or directive strings of the C08 corpus: added to the fuzz TEXTS/strings', 'C08d/m3': 'emits types never repeated an event name: overloaded call signatures with repeated names added to the determinism workload', 'C09d/m1': 'M-FRAME accepted options injected into any call named defineComponent: the frame now requires the callee to be the binding imported by name from vue (syntax context compared)', 'C10d/m1': 'a component name resolved the same way in the whole module: two-scope bound/unbound modules added to C10', 'C10d/m3': 'one reassignment per statement list and no user _x next to it: double reassignment and _x collider families run through the real hygiene pass added', 'C11e/m1': 'the only child never carried a directive with an observable value expression: onlyChildWithDirective with counter functions, slots invoked twice', 'C11e/m2': 'C11 never evaluated the enclosing JSX several times: the loop / callback families (incl. a callback after an earlier temporary in the same list) added to C11', 'C11e/m3': 'v-models was followed by at most one attribute: two or more trailing attributes and spreads added', 'C12e/m2': 'no literal null/true/false expression-container children: added to the optimize twins', 'C12e/m3': 'no DOM element with v-html / v-text / innerHTML / textContent together with children: added', 'C13e/m1': 'v-model with a dynamic argument only appeared on components: native hosts added', 'C13e/m2': 'bound identifier child was never followed by a childless element sibling: sibling orders added', 'C14e/m1': 'listener names on one element never differed only in case: onClick/onclick style pairs added', 'C14e/m2': 'enableObjectSlots twins had no only-child element with a runtime directive: added', 'C15e/m3': 'pragma cases had no element that goes through withDirectives: v-show / v-model / custom directive elements added', 'C16e/m3': 'merged interfaces never had an extends clause: mergedWithExtends / emptyExtends added (this exposed a genuine defect, fixed: heritage of later declarations was dropped)', 'C17e/m1': 'NonNullable arguments never listed null first before Boolean and String: nonNullableNullFirst and Boolean/String order cases added', 'C17e/m2': 'indexed access never selected a method signature: interfaceMethodIndex / typeLitMethodIndex added', 'C17e/m3': 'Extract was only used as Extract<union, member>: Extract<..., object> style atoms added', 'C18e/m1': 'function types were never unioned with any/unknown: added', 'C18e/m2': 'every prop was optional: required props with defaults added', 'C18e/m3': 'shorthand bindings were always declared before the call and Function-typed exactly: later declarations and union-typed shorthand added', 'C19e/m2': 'one import declaration from vue per module: split import layouts added', 'C19e/m3': 'merged interfaces used property syntax only: merged call-signature interfaces added', 'C20e/m3': 'no other vue export imported under the local name defineComponent: vueOtherExportAsName provenance added'})
     meta = {
         "property": prop, "summary": meta_in.get("summary"), "needs": meta_in.get("needs"), "files_touched": meta_in.get("files_touched"),
         "origin": f"independent sub-agent, batch {batch}, given only the property text" + ("; patch re-based by hand onto the repaired tree (same change)" if rebased else ""),
